@@ -571,3 +571,78 @@ func storeBefore(b *ssa.BasicBlock, at ssa.Instruction, mut int64) bool {
 	}
 	return false
 }
+
+// C03/R7 print-time substitutions are guarded.
+//
+// The printer replaces some expressions while printing (inlined empty/identity functions, folded
+// cross-module constants). When the replaced expression sits in a call-target, template-tag or
+// delete-operand position, a property access or `eval` that moves into that position changes the
+// `this` value, turns an indirect eval into a direct one, or changes what delete does; the helper
+// guardAgainstBehaviorChangeDueToSubstitution wraps those in `(0, …)`. Rule: in printExpr the
+// result of lateConstantFoldUnaryOrBinaryOrIfExpr never becomes the expression being printed
+// (stored into the `expr` variable or handed to printExpr) except through that guard.
+func c03LateFoldGuard(p *Prog) *RuleResult {
+	r := NewRule("C03/R7 late-fold-guard", "an expression produced by the print-time constant fold replaces the expression being printed only after passing guardAgainstBehaviorChangeDueToSubstitution (call target / template tag / delete operand positions)")
+	fn := p.FindFunc("js_printer.(*printer).printExpr")
+	if !r.Anchor("js_printer.(*printer).printExpr", fn != nil) {
+		return r
+	}
+	n := 0
+	eachInstr(fn, func(b *ssa.BasicBlock, in ssa.Instruction) {
+		c, ok := in.(*ssa.Call)
+		if !ok || FuncNameOf(c) != "js_printer.(*printer).lateConstantFoldUnaryOrBinaryOrIfExpr" {
+			return
+		}
+		n++
+		r.Instances++
+		key := fmt.Sprintf("printExpr late fold #%d", n)
+		bad := ""
+		seen := map[ssa.Value]bool{}
+		var follow func(v ssa.Value)
+		follow = func(v ssa.Value) {
+			if seen[v] || v.Referrers() == nil {
+				return
+			}
+			seen[v] = true
+			for _, rf := range *v.Referrers() {
+				switch x := rf.(type) {
+				case *ssa.Store:
+					if x.Val != v {
+						continue
+					}
+					if al, ok := x.Addr.(*ssa.Alloc); ok {
+						if al.Comment == "expr" {
+							bad = "the folded expression is stored straight into the expression being printed"
+							return
+						}
+						// another local: follow its loads
+						for _, lr := range *al.Referrers() {
+							if u, ok := lr.(*ssa.UnOp); ok && u.Op == token.MUL {
+								follow(u)
+							}
+						}
+					}
+				case *ssa.Call:
+					name := FuncNameOf(x)
+					if name == "js_printer.(*printer).guardAgainstBehaviorChangeDueToSubstitution" {
+						continue
+					}
+					if name == "js_printer.(*printer).printExpr" || name == "js_printer.(*printer).printExprWithoutLeadingNewline" {
+						bad = "the folded expression is printed without the guard"
+						return
+					}
+				case *ssa.Phi:
+					follow(x)
+				}
+			}
+		}
+		follow(c)
+		if bad != "" {
+			r.Fail(key, p.Pos(c.Pos()), bad+": `(T ? a.b : c)()` with a cross-module constant T is printed as `a.b()`, which changes the this value of the call (and `(T ? eval : f)(s)` becomes a direct eval)")
+		} else {
+			r.OK(key, true, "the result only reaches the printed expression through the guard")
+		}
+	})
+	r.Anchor("call of lateConstantFoldUnaryOrBinaryOrIfExpr in printExpr", n > 0)
+	return r
+}
